@@ -985,7 +985,8 @@ example : (exT.leafs.foldl (markStep exH x2b) exT).leafs = [x2b] := by decide
 /-! ## 4 (continued). the snapshot step on a tree -/
 
 /-
-  FULL STATEMENT (not proved at the level of `DState.snapshot`):
+  FULL STATEMENT (proved since, at the level of `DState.snapshot`, as `C12b.snapshot_read`; that it never aborts:
+  `C12c.snapshot_no_panic`; this partial version is kept because `C12b` builds on its tree-level content):
 
     theorem snapshot_read (H src st st') (well-formedness of st) :
         snapshot H src st = .ok st' → read src st' = read src st   (up to the descriptor cache)
